@@ -73,6 +73,7 @@ type Exec struct {
 	SafetyOnly bool
 	curPos string
 	smokeCount map[string]int
+	Alias   map[string]string // identifiers of loop invariants bound to renamed locals (rebind.go)
 	Inlined map[string]bool
 	epochSeq int
 	bvSeq    int
